@@ -61,6 +61,31 @@ def main():
         assert cats["w.j.q = 6"] == "ir-write", (cats, effs)      # ... and this one to its argument
     finally:
         shutil.rmtree(d, ignore_errors=True)
+    # bracket balance of evaluated literals: correlated guards, format templates, helpers, loops
+    from . import balance as B
+    d = tempfile.mkdtemp(prefix="hsa-selftest-")
+    try:
+        os.makedirs(os.path.join(d, "src"))
+        open(os.path.join(d, "hephaestus.py"), "w").write("x = 1\n")
+        open(os.path.join(d, "src", "__init__.py"), "w").write("")
+        open(os.path.join(d, "src", "t.py"), "w").write(
+            "CLOSE = '}'\n"
+            "class T:\n"
+            "    def ok_correlated(self, n):\n        r = '(' if n.cast else ''\n        r += n.text\n        if n.cast:\n            r += ')'\n        return r\n"
+            "    def ok_format(self, n):\n        return '{i}class {n} {{\\n{b}\\n}}'.format(i=1, n=n.name, b=n.body)\n"
+            "    def ok_helper(self, n):\n        return 'fun {' + n.body + self._close()\n"
+            "    def _close(self):\n        return CLOSE\n"
+            "    def bad_branch(self, n):\n        r = 'f('\n        if n.args:\n            r += n.args + ')'\n        return r\n"
+            "    def bad_rebound(self, n, c):\n        r = '[' if c else ''\n        c = n.other\n        if c:\n            r += ']'\n        return r\n"
+            "    def bad_loop(self, n):\n        r = ''\n        for a in n.args:\n            r += '<' + a\n        return r\n"
+            "    def bad_quote(self, n):\n        return '\"' + n.literal\n")
+        rp = repo.Repo(d)
+        from .report import Ob as _Ob
+        got = {o.key.split(":")[1]: o.ok for o in B.check_module(rp, "src.t", "X", "t", _Ob)}
+        assert got == {"ok_correlated": True, "ok_format": True, "ok_helper": True, "_close": True,
+                       "bad_branch": False, "bad_rebound": False, "bad_loop": False, "bad_quote": False}, got
+    finally:
+        shutil.rmtree(d, ignore_errors=True)
     # normaliser: boolean search folding, De Morgan, comprehension desugaring, helper inlining, local inlining
     from . import normalize as N
     h = ast.parse("def h(m, nb):\n    if not nb:\n        return False\n    for k, v in nb.items():\n        if not upd(m, k, v):\n            return False\n    return True\n").body[0]
